@@ -336,6 +336,8 @@ var Constraints = []ConstraintInfo{
 	{Key: "union+method", Text: lit("interface {\n\t~int | ~string\n\tString() string\n}"), Comparable: true, Args: []Ty{N("alpha", "MyInt"), N("", "LStr")}},
 	{Key: "iface-literal", Text: lit("interface{ M() int }"), Args: []Ty{N("alpha", "I"), N("alphb", "I")}},
 	{Key: "dep-slice", Dep: true, Text: func(_ func(string) string, o []string) string { return "~[]" + o[len(o)-1] }},
+	// fwd-slice is rendered by ifaceDecl (it needs the NEXT parameter's name): S ~[]E with E declared after S
+	{Key: "fwd-slice", Text: lit("any")},
 	{Key: "dep-generic", Dep: true, Pkgs: []string{"alpha"}, Text: func(q func(string) string, o []string) string {
 		return q("alpha") + "GI[" + o[len(o)-1] + "]"
 	}},
@@ -567,3 +569,49 @@ func isExportedName(s string) bool {
 }
 
 func (i *Iface) Exported() bool { return isExportedName(i.Name) }
+
+// TypeArgs returns up to n admissible type-argument tuples for a generic interface ([][]Ty{nil}
+// for a non-generic one).
+func TypeArgs(it *Iface, n int) [][]Ty {
+	if len(it.TParams) == 0 {
+		return [][]Ty{nil}
+	}
+	var out [][]Ty
+	for variant := 0; variant < n; variant++ {
+		tuple := make([]Ty, len(it.TParams))
+		done := make([]bool, len(it.TParams))
+		// independent parameters first, then the ones that refer to a neighbour
+		for pass := 0; pass < 3; pass++ {
+			for i, tp := range it.TParams {
+				if done[i] {
+					continue
+				}
+				c := FindConstraint(tp.Constraint)
+				switch {
+				case c.Key == "dep-slice" && i > 0 && done[i-1]:
+					prev := tuple[i-1]
+					tuple[i], done[i] = Ty{K: "slice", Elem: &prev}, true
+				case c.Key == "dep-generic" && i > 0 && done[i-1]:
+					prev := tuple[i-1]
+					tuple[i], done[i] = Ty{K: "named", Pkg: "alpha", Name: "GI", Args: []Ty{prev}}, true
+				case c.Key == "fwd-slice" && i+1 < len(it.TParams) && done[i+1]:
+					next := tuple[i+1]
+					tuple[i], done[i] = Ty{K: "slice", Elem: &next}, true
+				case c.Key == "fwd-slice" && i+1 >= len(it.TParams):
+					tuple[i], done[i] = B("int"), true // rendered as `any` when there is no next parameter
+				case c.Key == "dep-slice" || c.Key == "dep-generic" || c.Key == "fwd-slice":
+					// wait for the neighbour
+				default:
+					tuple[i], done[i] = c.Args[(variant+i)%len(c.Args)], true
+				}
+			}
+		}
+		for i := range done {
+			if !done[i] {
+				tuple[i] = B("int")
+			}
+		}
+		out = append(out, tuple)
+	}
+	return out
+}
